@@ -517,6 +517,8 @@ struct Enc {
         }
     }
     uint64_t dim() { return g.chance(20) ? (uint64_t)g.range(1, 100000) : (uint64_t)g.range(1, 200); }
+    // a value that, a third of the time, repeats the modal variable so that the field can be left implicit
+    uint64_t dim_or(const MV<uint64_t>& mv) { return (mv.def && g.chance(35)) ? mv.v : dim(); }
 
     void geometry(ACell& cell, const std::string& cellname) {
         APoly ap;
@@ -536,7 +538,7 @@ struct Enc {
         bool rb;
         switch (kind) {
             case 0: {  // RECTANGLE
-                uint64_t wd = dim(), ht = g.chance(30) ? wd : dim();
+                uint64_t wd = dim_or(m.gw), ht = g.chance(30) ? wd : dim_or(m.gh);
                 bool square = wd == ht && g.chance(60);
                 bool wb = fld(m.gw, wd);
                 bool hb = false;
@@ -663,7 +665,7 @@ struct Enc {
                 stat("rec:ctrapezoid" + std::to_string(type));
             } break;
             case 5: {  // CIRCLE
-                uint64_t r = (uint64_t)g.range(20, 3000);
+                uint64_t r = (m.radius.def && g.chance(35)) ? m.radius.v : (uint64_t)g.range(20, 3000);
                 if (llabs(x) > (1LL << 30)) x %= (1LL << 20);
                 if (llabs(y) > (1LL << 30)) y %= (1LL << 20);
                 bool cb = fld(m.radius, r);
@@ -685,7 +687,7 @@ struct Enc {
                 APathEl el;
                 el.layer = ap.layer;
                 el.type = ap.type;
-                uint64_t hw = g.chance(15) ? 0 : (uint64_t)g.range(1, 60);
+                uint64_t hw = (m.hw.def && g.chance(35)) ? m.hw.v : (g.chance(15) ? 0 : (uint64_t)g.range(1, 60));
                 bool wb = fld(m.hw, hw);
                 // extension scheme
                 int64_t es, ee;
